@@ -46,6 +46,7 @@ def correspondence(ctx):
         for lab in ([0x628] + run + [0x200C, 0x628], [0x628, 0x200C] + run + [0x628], [0x628, 0x200C] + run, run + [0x200C, 0x628]):
             cases.append(f'allows.ff|{hexs(lab)}')
             cases.append(f'allows.id|{hexs(lab)}')
+    cases += fuzz_cases(ctx, {8, 9})      # coverage-guided search of the tree under check (only when the source changed / thorough)
     res = run_cases(cases, ctx.work)
 
     def nontrivial(case, impl):
